@@ -10,7 +10,7 @@ import (
 // order in which Fields.Concat / wpIterator.Get put write-level fields and the event's own fields.
 func init() {
 	generators["C01"] = func() {
-		l := newLean("C01", "Facts about pkg/model/logevent.go (record header), pkg/model/field/field.go (length limit, Concat order)\nand api/rpc/ingestor.go (wpIterator.Get: which fields come first).")
+		l := newLean("C01", "Facts about pkg/model/logevent.go (record header), pkg/model/field/field.go (length limit, Concat order),\napi/rpc/ingestor.go (wpIterator.Get: which fields come first) and pkg/partition/iwrapper.go (how Get tracks the timestamp hull).")
 
 		intLit := func(e ast.Expr) (int64, bool) {
 			if bl, ok := e.(*ast.BasicLit); ok && bl.Kind == token.INT {
@@ -202,6 +202,119 @@ func init() {
 		}
 		l.p("/-- in `wpIterator.Get` the receiver of `Concat` is the packet's write-level field list (`wpi.flds`) -/")
 		l.p("def wpConcatReceiverIsWriteLevel : Bool := %s", leanBool(wlRecv))
+		// --- iwrapper.Get: when are minTs/maxTs (re)initialised? -----------------------------------
+		// `if iw.minTs > lge.Timestamp || !iw.tsSet { … }`, `if iw.maxTs < lge.Timestamp || !iw.tsSet { … }`, `iw.tsSet = true`
+		// (before commit 6624754 the second disjunct was `iw.minTs == 0` / `iw.maxTs == 0`: 0 meant "unset")
+		fw := parseFile("pkg/partition/iwrapper.go")
+		flagDisj, zeroDisj, setsFlag := 0, 0, false
+		if fd := funcDecl(fw, "iwrapper", "Get"); fd != nil {
+			ast.Inspect(fd.Body, func(n ast.Node) bool {
+				switch x := n.(type) {
+				case *ast.IfStmt:
+					be, ok := x.Cond.(*ast.BinaryExpr)
+					if !ok || be.Op != token.LOR {
+						return true
+					}
+					first, ok := be.X.(*ast.BinaryExpr)
+					if !ok {
+						return true
+					}
+					if se, ok := first.X.(*ast.SelectorExpr); !ok || (se.Sel.Name != "minTs" && se.Sel.Name != "maxTs") {
+						return true
+					}
+					switch y := be.Y.(type) {
+					case *ast.UnaryExpr:
+						if se, ok := y.X.(*ast.SelectorExpr); ok && y.Op == token.NOT && se.Sel.Name == "tsSet" {
+							flagDisj++
+						}
+					case *ast.BinaryExpr:
+						if v, ok := intLit(y.Y); ok && v == 0 && y.Op == token.EQL {
+							zeroDisj++
+						}
+					}
+				case *ast.AssignStmt:
+					if len(x.Lhs) == 1 && len(x.Rhs) == 1 {
+						if se, ok := x.Lhs[0].(*ast.SelectorExpr); ok && se.Sel.Name == "tsSet" {
+							if id, ok := x.Rhs[0].(*ast.Ident); ok && id.Name == "true" {
+								setsFlag = true
+							}
+						}
+					}
+				}
+				return true
+			})
+		} else {
+			problem("iwrapper.Get not found")
+		}
+		usesFlag := flagDisj == 2 && setsFlag && zeroDisj == 0
+		if !usesFlag && zeroDisj != 2 {
+			problem("iwrapper.Get: the min/max updates are neither guarded by `!iw.tsSet` (with `iw.tsSet = true`) nor by `== 0` (found flag=%d zero=%d set=%v)", flagDisj, zeroDisj, setsFlag)
+		}
+		l.p("/-- `iwrapper.Get` updates minTs/maxTs under `… || !iw.tsSet` and then sets `iw.tsSet = true` (false: the old `… || x == 0` sentinel) -/")
+		l.p("def iwrapperUnsetIsFlag : Bool := %s", leanBool(usesFlag))
+		// resetMinMaxTs is never called from Service.Write: the hull accumulates over the whole batch
+		resetCalled := false
+		fp := parseFile("pkg/partition/partition.go")
+		if fd := funcDecl(fp, "Service", "Write"); fd != nil {
+			ast.Inspect(fd.Body, func(n ast.Node) bool {
+				if ce, ok := n.(*ast.CallExpr); ok {
+					if se, ok := ce.Fun.(*ast.SelectorExpr); ok && se.Sel.Name == "resetMinMaxTs" {
+						resetCalled = true
+					}
+				}
+				return true
+			})
+		} else {
+			problem("partition.Service.Write not found")
+		}
+		// --- do the RPC decoders check a string's length prefix against the buffer before calling the library? ---------
+		// (commit dbbc1a7: api/rpc/encoder.go `unmarshalString` = guard `uln > uint(len(buf)-idx)` + xbinary.UnmarshalString)
+		fe := parseFile("api/rpc/encoder.go")
+		callsOf := func(fd *ast.FuncDecl) (guarded, raw int) {
+			if fd == nil {
+				return
+			}
+			ast.Inspect(fd.Body, func(n ast.Node) bool {
+				ce, ok := n.(*ast.CallExpr)
+				if !ok {
+					return true
+				}
+				switch f := ce.Fun.(type) {
+				case *ast.Ident:
+					if f.Name == "unmarshalString" {
+						guarded++
+					}
+				case *ast.SelectorExpr:
+					if id, ok := f.X.(*ast.Ident); ok && id.Name == "xbinary" && (f.Sel.Name == "UnmarshalString" || f.Sel.Name == "UnmarshalBytes") {
+						raw++
+					}
+				}
+				return true
+			})
+			return
+		}
+		hasGuard := false
+		if g := funcDecl(fe, "", "unmarshalString"); g != nil {
+			ast.Inspect(g.Body, func(n ast.Node) bool {
+				if be, ok := n.(*ast.BinaryExpr); ok && be.Op == token.GTR {
+					if id, ok := be.X.(*ast.Ident); ok && id.Name == "uln" {
+						hasGuard = true
+					}
+				}
+				return true
+			})
+		}
+		g1, r1 := callsOf(funcDecl(fe, "", "unmarshalLogEvent"))
+		g2, r2 := callsOf(funcDecl(fi, "wpIterator", "init"))
+		guardedAll := hasGuard && g1 == 3 && r1 == 0 && g2 == 2 && r2 == 0
+		rawAll := g1 == 0 && r1 == 3 && g2 == 0 && r2 == 2
+		if !guardedAll && !rawAll {
+			problem("unmarshalLogEvent / wpIterator.init: neither all strings through the guarded unmarshalString nor all through xbinary (guarded %d+%d, raw %d+%d, guard present %v)", g1, g2, r1, r2, hasGuard)
+		}
+		l.p("/-- `unmarshalLogEvent` and `wpIterator.init` decode every string through `unmarshalString`, which rejects a length prefix larger than the bytes left before calling `xbinary.UnmarshalString` -/")
+		l.p("def rpcStringsLengthGuarded : Bool := %s", leanBool(guardedAll))
+		l.p("/-- `Service.Write` calls `iw.resetMinMaxTs()` somewhere in its loop -/")
+		l.p("def writeLoopResetsHull : Bool := %s", leanBool(resetCalled))
 		l.write()
 	}
 }
